@@ -23,7 +23,10 @@ META = {
     "len(a) == len(b), the empty zip), WindowFromSlice, and the head of roi_from_points from its public arguments (shape_ "
     "spellings incl. XY / float / wrong-length / non-sequence, int() truncation of padding / align, Python % for any sign "
     "of align, align = 0, point arrays that are not (N, 2)): from_points_public_eq reduces the public call to the "
-    "modelled core, so containment etc. speak about the public call; from_points_negative_align_cex.  The model is tied "
+    "modelled core, so containment etc. speak about the public call; from_points_negative_align_cex; norm_slice_2d; "
+    "polygon_path (Model/C17Path.lean over C03's edge_index model, Props/C17Path.lean: never fails on non-empty vectors, "
+    "every point a border grid point, 2(nx+ny)-4 (+1 closed) of them, closed ring returns to its start; vector lengths "
+    "0 and 1, y=None, lists / float32 arrays compared).  The model is tied "
     "to /repo on every run by an exact behavioural correspondence (exhaustive on small lengths, random large) and the "
     "numpy-based property oracle; Spec/PySlice and Spec/PySliceStep are validated against numpy each run.  Every helper "
     "is also called with numpy scalars of every integer dtype (u1..u8, i1..i8) for bounds / lengths / pads / factors - "
@@ -36,8 +39,11 @@ META = {
     "(ZeroDivisionError).  numpy scalars of narrow / unsigned dtypes wrap inside the helpers when an intermediate "
     "(start - pad, n + x, x + align - 1, start * k) leaves the dtype: plain numpy arithmetic, outside the statement; "
     "the spelling oracle is restricted to the no-overflow domain.  NOT mirrored: Tiles / VariableSizedTiles / roi_tiles / "
-    "clip_tiles / norm_slice_2d (C04 owns tile indexing), polygon_path with closed=True, roi_shape of a list (not tuple) roi "
-    "(AttributeError), TypeErrors for non-integer bounds.",
+    "clip_tiles (C04 owns tile indexing), roi_shape of a list (not tuple) roi (AttributeError).  Bounds that are not "
+    "integers (floats, strings) are outside the model (Int): the helpers do no validation - float bounds are answered with "
+    "float results, strings raise TypeError from the comparison - pinned as counted observations "
+    "(non-integer-bound|<fn>|answers / raises), not as a requirement.  roi_from_points is 2-D only by construction: a shape "
+    "of another length is shape_'s ValueError, a point array that is not (N, 2) the AssertionError (both modelled).",
     "technique": "Lean 4 proof over hand model + exhaustive/random differential correspondence with real code",
     "design_ref": "DESIGN.md §4 C17",
 }
@@ -614,6 +620,39 @@ def run(R: Run):
             X = np.arange(ny * nx).reshape(ny, nx)
             R.oracle(X[o].shape == (1, 1) and X[o][0, 0] == X[y, x], "norm-slice-2d-selects-element", {"idx": [y, x], "shape": [ny, nx]},
                      f"{o}")
+    # --- polygon_path: ring of grid points in edge_index order, any vector lengths (0 and 1 included), y=None, closed / open
+    for _ in range(R.pick(1200, 12000)):
+        nx_, ny_ = rng.choice([0, 1, 1, 2, 2, 3, 4, 5, 9]), rng.choice([0, 1, 2, 2, 3, 4, 7])
+        xs_ = [rng.randint(-40, 40) / rng.choice([1, 2, 4]) for _ in range(nx_)]
+        ys_ = None if rng.random() < 0.2 else [rng.randint(-40, 40) / rng.choice([1, 2, 8]) for _ in range(ny_)]
+        closed = rng.random() < 0.5
+        as_ = rng.choice(["array", "list", "f32"])
+        conv = (lambda v: v) if as_ == "list" else (lambda v: np.asarray(v, dtype="float32" if as_ == "f32" else "float64"))
+        res = []
+
+        def fpp_():
+            o = roi.polygon_path(conv(xs_), None if ys_ is None else conv(ys_), closed=closed)
+            res.append(o)
+            return list_s(o.T.tolist(), lambda p: f"{frac_s(float(p[0]))};{frac_s(float(p[1]))}")
+
+        R.corr(f"c17 ppath {list_s(xs_, frac_s)} {'N' if ys_ is None else list_s(ys_, frac_s)} {bool_s(closed)}", fpp_,
+               sig=f"ppath|{'closed' if closed else 'open'}|{'y=None' if ys_ is None else 'xy'}|"
+                   f"{'empty' if 0 in (nx_, ny_ if ys_ is not None else nx_) else 'line' if 1 in (nx_, ny_ if ys_ is not None else nx_) else 'ring'}")
+        Y_ = xs_ if ys_ is None else ys_
+        if res and len(xs_) >= 2 and len(Y_) >= 2:
+            pts_ = [(float(a_), float(b_)) for a_, b_ in res[0].T.tolist()]
+            want_n = 2 * (len(xs_) + len(Y_)) - 4 + (1 if closed else 0)
+            on_border = all((px in (xs_[0], xs_[-1]) or py in (Y_[0], Y_[-1])) and px in xs_ and py in Y_ for px, py in pts_)
+            R.oracle(len(pts_) == want_n and on_border and (not closed or pts_[0] == pts_[-1]) and pts_[0] == (xs_[0], Y_[0]),
+                     "polygon-path-not-the-border-ring", {"x": xs_, "y": ys_, "closed": closed}, f"{pts_[:10]}", sig="ppath-oracle")
+    # --- bounds that are not integers: the helpers take them as they come (no TypeError); numpy itself refuses such a slice.
+    #     Pinned as an observation (counted in the evidence), not a requirement: validating or converting them is as good
+    for s_f in (slice(0.5, 3), slice(1, 2.5), slice(None, 4.0), slice(1.0, None), slice("a", 3), slice(1, "b")):
+        for nm_f, call_f in (("roi_normalise", lambda: roi.roi_normalise(s_f, 5)), ("roi_shape", lambda: roi.roi_shape(s_f)),
+                             ("roi_pad", lambda: roi.roi_pad(s_f, 1, 5)), ("roi_is_empty", lambda: roi.roi_is_empty(s_f)),
+                             ("roi_intersect", lambda: roi.roi_intersect(s_f, slice(0, 4))), ("roi_center", lambda: roi.roi_center(s_f))):
+            o_f = guarded(lambda: repr(call_f()))
+            R.count(f"non-integer-bound|{nm_f}|{'raises ' + o_f[4:] if o_f.startswith('ERR:') else 'answers'}")
     # --- WindowFromSlice
     def enc_ob(x):
         return f"{opt_s(x.start)}:{opt_s(x.stop)}"
